@@ -5,7 +5,9 @@ ROOT = os.path.dirname(os.path.dirname(os.path.abspath(__file__)))
 TB = ("Trusted: Coq 8.16.1 kernel (full .vo build, vm_compute, no native_compute); no axioms declared; every property theorem's Print Assumptions "
       "output is copied into the evidence on each run; extraction with ExtrOcamlBasic only; OCaml driver glue (cross-checked in-kernel on a sample each run); "
       "the C++ harness, generators and comparison scripts under /verif; g++/libstdc++/sanitizers as installed. The C++ is not verified: it is shown, on every run "
-      "and on the generated inputs, to behave as the verified Coq model does (hand-written model + correspondence check). ")
+      "and on the generated inputs, to behave as the verified Coq model does (hand-written model + correspondence check). Besides small and exhaustive scopes the generated inputs "
+      "include large ones where a property's code can depend on size: graphs of 33-140 vertices and hubs of more than 32 neighbours, a pair forced more than 256 times, "
+      "multiplicities of 2^31 and more, weights +-0, one ulp apart and near DBL_MAX, files longer than a stream buffer, very long lines. ")
 CHECKS = {
  'C01': dict(text="Theorem C01_faithful (Coq): for every valid history of the eight mutators, every initial size and every label type, the model run ends normally and "
                   "size, edge count, hasEdge, neighbour lists (NoDup, exact membership), labels equal the pair-set spec; C01_all_observers: the model's WHOLE observation vector (degrees, matrices, edges(), "
